@@ -190,6 +190,40 @@ def run(chk, repo):
                     wr = Evaluator().ev(ast.parse(wantR, mode="eval").body)
                     chk.decide(R == wr, "C13.pole", W, "R = %s" % R.key(), why="documented pole radius is %s" % wantR, node=rst)
     chk.floor("C13.gain", npaths, 10, "design paths")
+    # the Stream arm of the 'z' strategies must treat each sample as the scalar arm treats the number: only an exact
+    # zero of cos(cutoff) is replaced
+    chk.rule("C13.zguard", "lowpass.z / highpass.z, Stream cut-off: cos(cutoff) is mapped element by element, every value "
+                           "kept except a zero (which becomes 1) - the element-wise image of the scalar arm's 'if not denR'")
+    nz = 0
+    for dname in ("lowpass", "highpass"):
+        fnz = repo.strategy(LF, dname, "z").node
+        Wz = WF("%s[z]" % dname)
+        gens = [n for n in ast.walk(fnz) if isinstance(n, (ast.GeneratorExp, ast.ListComp)) and len(n.generators) == 1
+                and "cos" in unparse(n.generators[0].iter)]
+        maps = [n for n in ast.walk(fnz) if isinstance(n, ast.Call) and unparse(n.func) in ("xmap", "map", "it.imap")
+                and len(n.args) == 2 and isinstance(n.args[0], ast.Lambda) and "cos" in unparse(n.args[1])]
+        for g in gens + maps:
+            nz += 1
+            if isinstance(g, ast.Call):
+                var, e = g.args[0].args.args[0].arg, g.args[0].body
+            else:
+                var, e = unparse(g.generators[0].target), g.elt
+                if g.generators[0].ifs:
+                    chk.bad("C13.zguard", Wz, short(g), "samples are filtered out: the design loses its alignment with the "
+                            "cut-off stream", node=g)
+                    continue
+            ok = False
+            if isinstance(e, ast.IfExp):
+                t, a_, b_ = unparse(e.test), unparse(e.body), unparse(e.orelse)
+                keep_tests = (var, "%s != 0" % var, "0 != %s" % var, "not %s == 0" % var, "%s != 0.0" % var)
+                zero_tests = ("%s == 0" % var, "0 == %s" % var, "not %s" % var, "%s == 0.0" % var)
+                ok = (t in keep_tests and a_ == var and b_ in ("1", "1.0")) or (t in zero_tests and b_ == var and a_ in ("1", "1.0"))
+            elif isinstance(e, ast.BoolOp) and isinstance(e.op, ast.Or) and len(e.values) == 2:
+                ok = unparse(e.values[0]) == var and unparse(e.values[1]) in ("1", "1.0")
+            chk.decide(ok, "C13.zguard", Wz, short(g),
+                       why="only an exact zero may be replaced (by 1): any other test changes non-zero samples of cos(cutoff) "
+                           "- e.g. every negative one, cut-offs above pi/2 - and the half-power point moves", node=g)
+    chk.floor("C13.zguard", nz, 2, "element-wise zero guards")
     # defaults
     for nm, wantv in (("lowpass.default", "lowpass.pole"), ("highpass.default", "highpass.z")):
         v = repo.find_assign(LF, nm)
@@ -306,6 +340,11 @@ def run(chk, repo):
         chk.decide(good, "C13.gammatone", W, "%d normalisation(s) f / abs(f.freq_response(freq))" % len(norms),
                    why="every section must be divided by its own magnitude response at the centre frequency", node=fn)
         r = docstring_free(fn.body)[-1]
+        for other in [n for n in own_nodes(fn) if isinstance(n, ast.Return) and n is not r]:
+            chk.decide(isinstance(r, ast.Return) and unparse(other.value) == unparse(r.value), "C13.gammatone", W,
+                       "additional return path: %s" % short(other),
+                       why="a path that returns before the sections are divided by their magnitude response at the centre "
+                           "frequency: on it the gain at `freq` is not 1", node=other)
         if sname == "sampled":
             chk.decide(unparse(r) == "return CascadeFilter([f0] + [fn] * (eta - 1))" and len(norms) == 2, "C13.gammatone", W,
                        short(r), why="cascade of the normalised first section and eta-1 normalised pole sections", node=r)
